@@ -1083,7 +1083,7 @@ func tagList(m map[string]bool) []string {
 func (r *runner) disasmStream(rng *rand.Rand) error {
 	r.sum.Rule = "seeded objdump listings rendered from a site model (functions × call sites: CALL of the syscall.Syscall family with MOV $n, 0(SP); raw SYSCALL / INT $0x80 / SYSENTER " +
 		"with MOV $n, AX|BP; the XORL AX, AX case; numbers decimal/hex/octal/binary/underscored/signed/out of range/unknown/garbage), noise lines, malformed TEXT markers, sites with fewer than four fields, " +
-		"CR-LF, Unicode blanks, lines of 65535/65536/70000 bytes, missing final newline, truncation at every line boundary and at random bytes, a directory and a missing path; both parsers (x86_64, i386); " +
+		"CR-LF, Unicode blanks, lines of 65535/65536/70000 bytes, missing final newline, truncation at every line boundary and at random bytes, a directory, a missing path and a /proc file whose first read fails, the same number loaded by consecutive sites, marker lines with decorated symbols; one text in six delivered through a named pipe instead of a regular file; a few 300 KB listings extracted in a child whose second or third read(2) is made to fail with EIO (strace fault injection; skipped where strace is not available); both parsers (x86_64, i386); " +
 		"a case is one (architecture, readability, file content); non-trivial = the text holds at least one syscall site or one malformed line, or the input is unreadable; distinct by request line. " +
 		"oracle_runs = extra runs of the implementation on prefixes cut at function boundaries (prefix-monotonicity checked on the real code)"
 	d, err := newDsm(r)
